@@ -12,6 +12,7 @@ import PnaVerif.Model.Cli.Sched
 import PnaVerif.Model.Cli.PartName
 import PnaVerif.Model.Cli.ModeText
 import PnaVerif.Model.Cli.Wire
+import PnaVerif.Model.Cli.ChunkList
 /-
   Line-protocol driver: one request per line on stdin, one canonical answer per line on stdout.
   Imports model files only (no Mathlib) so that it links as a native executable.
@@ -348,6 +349,11 @@ def handle (line : String) : String :=
     | some b => let (its, o) := rawEntriesWith chunksSlice b
                 " ".intercalate (its.map Canon.rawItemS ++ [Canon.endS o])
     | none => "bad-op"
+  | ["chunklist", h] => withHex h fun b =>
+      match Cli.chunkList b with
+      | .ok rows => "ok " ++ ",".intercalate (rows.map fun r => s!"{r.idx}:{tyHex r.ty}:{r.len}:{String.ofList (Cli.hexOffset r.off)}")
+      | .error _ => "err"
+      | .panic s => "panic " ++ s
   | "multipart.read" :: kind :: parts =>
     match parts.mapM ofHex with
     | some ps =>
